@@ -10,3 +10,4 @@ register_simp_attr z80spec
 register_simp_attr z80helper
 /-- reference-spec definitions other than the register accessors (getR/setR/get16/set16/…) -/
 register_simp_attr z80ctl
+register_simp_attr z80specb
